@@ -237,4 +237,58 @@ theorem isEmptyVal_false_of_getIn {k : Key} {ks : Path} {cur old : JValue N} (h 
   cases cur <;> simp [getIn] at h
   rfl
 
+/-! ## a whole attribute modified and restored above outstanding nested modifications -/
+
+theorem filter_ne_self_of_not_oHas (p : Path) {orig : Orig N} (h : oHas p orig = false) :
+    orig.filter (fun e => !(e.1 = p)) = orig := by
+  induction orig with
+  | nil => rfl
+  | cons e r ih =>
+    obtain ⟨q, w⟩ := e
+    simp [oHas] at h
+    have hne : q ≠ p := fun heq => h.1 heq.symm
+    simp [List.filter, hne]
+    simpa using ih h.2
+
+theorem filter_eq_oInsert (f : Key) (v : JValue N) {orig : Orig N} (h : oHas [f] orig = false) :
+    (oInsert [f] v orig).filter (fun e => !(e.1 = [f])) = orig := by
+  induction orig with
+  | nil => simp [oInsert]
+  | cons e r ih =>
+    obtain ⟨q, w⟩ := e
+    have hall := filter_ne_self_of_not_oHas [f] h
+    simp [oHas] at h
+    have hne : q ≠ [f] := fun heq => h.1 heq.symm
+    unfold oInsert
+    split
+    · simp only [List.filter, decide_true, Bool.not_true]
+      exact hall
+    · have := ih h.2
+      simp [List.filter, hne, this]
+
+/-- The shape of the object after modifying a nested leaf of a never-modified object (the witnesses of
+    `modify_restore_partial`, spelled out). -/
+theorem modify_leaf_shape (o : Obj N) (f k : Key) (ks : Path) (v old : JValue N)
+    (hnone : o.original = none)
+    (hex : getPath o.fields (f :: k :: ks) = some old)
+    (hleaf : isDict old = false) :
+    ∃ cur cur', dGet? f o.fields = some cur ∧
+      modify o (f :: k :: ks) v = .ok { fields := dSet f cur' o.fields, original := some [(f :: k :: ks, old)] } ∧
+      restore { fields := dSet f cur' o.fields, original := some [(f :: k :: ks, old)] } (f :: k :: ks) =
+        .ok { fields := o.fields, original := some [] } := by
+  simp only [getPath] at hex
+  cases hf : dGet? f o.fields with
+  | none => simp [hf] at hex
+  | some cur =>
+    simp only [hf] at hex
+    have hne : isEmptyVal cur = false := isEmptyVal_false_of_getIn hex
+    obtain ⟨cur', hset, hres, hne'⟩ := setDeep_restoreDeep (k :: ks) [f] cur old v [] (by simp) hex hleaf
+    have : [f] ++ k :: ks = f :: k :: ks := rfl
+    rw [this] at hset
+    refine ⟨cur, cur', rfl, ?_, ?_⟩
+    · simp [modify, hf, hne, origOf, hnone, hset, oAdd, oHas, oInsert]
+    · have hlast : List.drop (ks.length + 1) (f :: k :: ks) = lastTok (k :: ks) := by
+        simp [lastTok]
+      simp [restore, dGet_dSet_self cur' hf, hne', isPrefix_refl, hlast, hres, dSet_cancel cur' hf]
+
 end Icinga.C14
